@@ -102,13 +102,27 @@ def parse_terse(out, names):
         res[h] = r
     return res
 
-def _run_group(scratch, crate_dir, harnesses, jobs, timeout, extra, harness_timeout=None):
+def full_names(inject, harnesses, scratch=None):
+    """Resolve each harness to its fully qualified name (module path of the file it is injected into +
+    injected module name) so that `--exact` can be used (substring matching would select extra harnesses)."""
+    out = {}
+    for (rel, hfile, modname) in inject:
+        txt = open(os.path.join(scratch, '_verif_harness', hfile) if scratch else os.path.join(KDIR, hfile)).read()
+        mp = re.sub(r'^(yuvxyb-math/)?src/', '', rel)[:-3].replace('/', '::')
+        mp = '' if mp == 'lib' else mp
+        for h in harnesses:
+            if h.name not in out and re.search(r'\b%s\b' % re.escape(h.name), txt):
+                out[h.name] = '::'.join(x for x in (mp, modname, h.name) if x)
+    return out
+
+def _run_group(scratch, crate_dir, harnesses, jobs, timeout, extra, harness_timeout=None, names=None):
     cwd = os.path.join(scratch, crate_dir)
     cmd = ['cargo', 'kani', '-Z', 'function-contracts', '-Z', 'stubbing', '--output-format=terse', '-j', str(jobs)]
+    if names: cmd.append('--exact')
     if harness_timeout:
         cmd += ['-Z', 'unstable-options', '--harness-timeout', f'{int(harness_timeout)}s']
     for h in harnesses:
-        cmd += ['--harness', h.name]
+        cmd += ['--harness', (names or {}).get(h.name, h.name)]
     cmd += list(extra)
     env = dict(os.environ, CARGO_NET_OFFLINE='true', CARGO_TARGET_DIR=os.path.join(scratch, 'target-kani'))
     try:
@@ -118,16 +132,20 @@ def _run_group(scratch, crate_dir, harnesses, jobs, timeout, extra, harness_time
         out = f'exception {e}'
     return ' '.join(cmd), out
 
-def run_kani(scratch, crate_dir, harnesses, jobs=8, timeout=3600, extra=()):
+def run_kani(scratch, crate_dir, harnesses, jobs=8, timeout=3600, extra=(), inject=()):
     """harnesses: list of Harness (names are matched as suffixes).  Proof harnesses run in one cargo-kani
     invocation; bounded/optional harnesses run in a second one under a per-harness timeout."""
     t0 = time.time()
     main = [h for h in harnesses if not (h.bounded and h.bounded.startswith('optional'))]
     opt = [h for h in harnesses if h.bounded and h.bounded.startswith('optional')]
     cmds, outs, parsed = [], [], {}
+    names = full_names(inject, harnesses, scratch) if inject else None
+    missing = [h.name for h in harnesses if names is not None and h.name not in names]
+    if missing:
+        raise AnchorLost('harness not found in injected files: ' + ', '.join(missing))
     for grp, ht in ((main, None), (opt, max([h.timeout for h in opt] or [0]))):
         if not grp: continue
-        cmd, out = _run_group(scratch, crate_dir, grp, jobs, timeout, extra, ht)
+        cmd, out = _run_group(scratch, crate_dir, grp, jobs, timeout, extra, ht, names)
         cmds.append(cmd); outs.append(out)
         parsed.update(parse_terse(out, [h.name for h in grp]))
     wall = time.time() - t0
@@ -151,7 +169,7 @@ def concrete_playback(scratch, crate_dir, harness, harness_file, timeout=900):
     cwd = os.path.join(scratch, crate_dir)
     env = dict(os.environ, CARGO_NET_OFFLINE='true', CARGO_TARGET_DIR=os.path.join(scratch, 'target-kani'))
     cmd = ['timeout', str(timeout), 'cargo', 'kani', '-Z', 'function-contracts', '-Z', 'stubbing', '-Z', 'concrete-playback',
-           '--concrete-playback=print', '--harness', harness]
+           '--concrete-playback=print', '--exact', '--harness', harness]
     p = subprocess.run(cmd, cwd=cwd, env=env, capture_output=True, text=True)
     out = p.stdout + p.stderr
     tests = re.findall(r'```\n(/// Test generated for harness.*?)\n```', out, re.S)
@@ -195,3 +213,7 @@ def miri_replay(scratch, test_src, crate, expr, timeout=600):
                        capture_output=True, text=True)
     out = (p.stdout + p.stderr)[-2500:]
     return out, ('Undefined Behavior' in out)
+
+def append_harness(scratch, harness_file, text):
+    with open(os.path.join(scratch, '_verif_harness', harness_file), 'a') as f:
+        f.write('\n' + text + '\n')
